@@ -24,7 +24,15 @@ OK == 0   EPERM == 1   ENOENT == 2   EBUSY == 16   EEXIST == 17
 ENOTDIR == 20   EINVAL == 22   EROFS == 30   ENOTEMPTY == 39
 
 \* ------------------------------------------------------------------ 1. menu
-Kinds == {"bdro", "bdrw", "bfro", "bfrw", "tmp", "procro", "procrw", "nest", "nestf", "noent", "bdrol"}
+\* entries produced by the mount.Builder helpers (WithBind / WithTmpfs / WithProc[RW]) ...
+BuilderKinds == {"bdro", "bdrw", "bfro", "bfrw", "tmp", "procro", "procrw", "nest", "nestf", "noent", "bdrol"}
+\* ... and hand-written mount.Mount values (public struct, accepted by container.Builder.Mounts and, through
+\* Builder.WithMount(...).Build(), by the namespace runner) with flag combinations the helpers never produce.
+\* "Declared read-only" is the MS_RDONLY bit of the entry, whatever else is set.
+HandKinds == {"hbro", "hbrox", "hfro", "hbrw", "htro"}
+Kinds == BuilderKinds \cup HandKinds
+\* the menu used where the cube of the menu size matters (3-entry tables in the model checker)
+KindsCore == {"bdro", "bfrw", "tmp", "procro", "nest", "nestf", "noent", "bdrol", "hbro", "hbrox", "hfro", "hbrw", "htro"}
 
 BN == <<"b1", "b2", "b3">>      \* targets of directory binds
 FN == <<"f1", "f2", "f3">>      \* targets of file binds
@@ -32,6 +40,9 @@ NN == <<"n1", "n2", "n3">>      \* nested directory targets under "w"
 GN == <<"g1", "g2", "g3">>      \* nested file targets under "w"
 XN == <<"x1", "x2", "x3">>      \* targets of binds whose source does not exist
 KN == <<"k1", "k2", "k3">>      \* targets of binds from the nosuid,nodev,noexec file system
+HN == <<"h1", "h2", "h3">>      \* targets of hand-written directory binds
+EN == <<"e1", "e2", "e3">>      \* targets of hand-written file binds
+RN == <<"r1", "r2", "r3">>      \* targets of hand-written read-only tmpfs
 DS == <<"d1", "d2", "d3">>      \* source directories
 SS == <<"s1", "s2", "s3">>      \* source files
 MS == <<"m1", "m2", "m3">>      \* missing sources
@@ -50,26 +61,45 @@ SrcType(id) == IF id \in DirSrc THEN "d" ELSE IF id \in FileSrc THEN "f"
 SrcDirContent == { [p |-> <<"inside">>, t |-> "f"], [p |-> <<"secret">>, t |-> "f"],
                    [p |-> <<"secretd">>, t |-> "d"], [p |-> <<"secretd", "inner">>, t |-> "f"] }
 
+\* api: "bind" | "tmpfs" | "proc" = the builder helper of that name (flags: BuilderFlags);
+\*      "raw" = a mount.Mount literal with file-system type fst and exactly the flags fl
+B(api, tgt, src, ro) == [api |-> api, tgt |-> tgt, src |-> src, ro |-> ro, fst |-> "", fl |-> {}]
+H(tgt, src, fst, fl) == [api |-> "raw", tgt |-> tgt, src |-> src, ro |-> "RDONLY" \in fl, fst |-> fst, fl |-> fl]
 Entry(i, k) ==
-  CASE k = "bdro"   -> [api |-> "bind",  tgt |-> <<BN[i]>>,      src |-> DS[i],   ro |-> TRUE]
-    [] k = "bdrw"   -> [api |-> "bind",  tgt |-> <<BN[i]>>,      src |-> DS[i],   ro |-> FALSE]
-    [] k = "bfro"   -> [api |-> "bind",  tgt |-> <<FN[i]>>,      src |-> SS[i],   ro |-> TRUE]
-    [] k = "bfrw"   -> [api |-> "bind",  tgt |-> <<FN[i]>>,      src |-> SS[i],   ro |-> FALSE]
-    [] k = "tmp"    -> [api |-> "tmpfs", tgt |-> <<"w">>,        src |-> "tmpfs", ro |-> FALSE]
-    [] k = "procro" -> [api |-> "proc",  tgt |-> <<"proc">>,     src |-> "proc",  ro |-> TRUE]
-    [] k = "procrw" -> [api |-> "proc",  tgt |-> <<"proc">>,     src |-> "proc",  ro |-> FALSE]
-    [] k = "nest"   -> [api |-> "bind",  tgt |-> <<"w", NN[i]>>, src |-> DS[i],   ro |-> TRUE]
-    [] k = "nestf"  -> [api |-> "bind",  tgt |-> <<"w", GN[i]>>, src |-> SS[i],   ro |-> TRUE]
-    [] k = "noent"  -> [api |-> "bind",  tgt |-> <<XN[i]>>,      src |-> MS[i],   ro |-> TRUE]
-    [] k = "bdrol"  -> [api |-> "bind",  tgt |-> <<KN[i]>>,      src |-> LS[i],   ro |-> TRUE]
+  CASE k = "bdro"   -> B("bind",  <<BN[i]>>,      DS[i],   TRUE)
+    [] k = "bdrw"   -> B("bind",  <<BN[i]>>,      DS[i],   FALSE)
+    [] k = "bfro"   -> B("bind",  <<FN[i]>>,      SS[i],   TRUE)
+    [] k = "bfrw"   -> B("bind",  <<FN[i]>>,      SS[i],   FALSE)
+    [] k = "tmp"    -> B("tmpfs", <<"w">>,        "tmpfs", FALSE)
+    [] k = "procro" -> B("proc",  <<"proc">>,     "proc",  TRUE)
+    [] k = "procrw" -> B("proc",  <<"proc">>,     "proc",  FALSE)
+    [] k = "nest"   -> B("bind",  <<"w", NN[i]>>, DS[i],   TRUE)
+    [] k = "nestf"  -> B("bind",  <<"w", GN[i]>>, SS[i],   TRUE)
+    [] k = "noent"  -> B("bind",  <<XN[i]>>,      MS[i],   TRUE)
+    [] k = "bdrol"  -> B("bind",  <<KN[i]>>,      LS[i],   TRUE)
+    \* hand-written: plain read-only bind; read-only bind with extra restrictions but without
+    \* NOSUID/PRIVATE; read-only file bind, non-recursive; writable bind with restrictions; read-only tmpfs
+    [] k = "hbro"   -> H(<<HN[i]>>, DS[i],   "",      {"BIND", "RDONLY"})
+    [] k = "hbrox"  -> H(<<HN[i]>>, DS[i],   "",      {"BIND", "RDONLY", "REC", "NODEV", "NOEXEC"})
+    [] k = "hfro"   -> H(<<EN[i]>>, SS[i],   "",      {"BIND", "RDONLY", "PRIVATE", "NOSUID"})
+    [] k = "hbrw"   -> H(<<HN[i]>>, DS[i],   "",      {"BIND", "NOSUID", "NODEV"})
+    [] k = "htro"   -> H(<<RN[i]>>, "tmpfs", "tmpfs", {"RDONLY", "NOSUID", "NODEV"})
 
-DevNullEntry == [api |-> "bind", tgt |-> <<"dev", "null">>, src |-> "devnull", ro |-> FALSE]
+DevNullEntry == B("bind", <<"dev", "null">>, "devnull", FALSE)
 
 \* a configuration: cfg = [impl, kinds, linkm, maskm, devnull]
 \*   linkm/maskm: "none" (fork), "def" (builder defaults), "cus" (custom lists below)
 Entries(cfg) == [i \in 1..Len(cfg.kinds) |-> Entry(i, cfg.kinds[i])]
                 \o (IF cfg.devnull THEN <<DevNullEntry>> ELSE <<>>)
-Exists(e) == e.api # "bind" \/ SrcType(e.src) # "none"
+\* builder flag sets (pkg/mount/builder_linux.go); a hand-written entry carries its own
+EntryFlags(e) ==
+  CASE e.api = "bind"  -> {"BIND", "NOSUID", "PRIVATE", "REC"} \cup (IF e.ro THEN {"RDONLY"} ELSE {})
+    [] e.api = "tmpfs" -> {"NOSUID", "NOATIME", "NODEV"}
+    [] e.api = "proc"  -> {"NOSUID", "NODEV", "NOEXEC"} \cup (IF e.ro THEN {"RDONLY"} ELSE {})
+    [] e.api = "raw"   -> e.fl
+EntryFsType(e) == CASE e.api = "bind" -> "" [] e.api = "raw" -> e.fst [] OTHER -> e.api
+IsBind(e) == "BIND" \in EntryFlags(e)          \* Mount.IsBindMount
+Exists(e) == ~IsBind(e) \/ SrcType(e.src) # "none"
 \* mount.Builder.FilterNotExist: binds whose source does not exist are dropped, order kept
 Effective(cfg) == SelectSeq(Entries(cfg), Exists)
 
@@ -89,24 +119,21 @@ CustomMasks  == << <<"b1", "secret">>, <<"b1", "secretd">>, <<"b2", "secret">>, 
 Masks(cfg) == CASE cfg.maskm = "def" -> DefaultMasks [] cfg.maskm = "cus" -> CustomMasks [] OTHER -> <<>>
 
 \* the configuration space: every table of at most n entries, both implementations
-TablesUpTo(n) == UNION { [1..k -> Kinds] : k \in 0..n }
-ForkCfgsOf(n) == { [impl |-> "fork", kinds |-> t, linkm |-> "none", maskm |-> "none", devnull |-> FALSE]
-                     : t \in TablesUpTo(n) }
+TablesOver(K, n) == UNION { [1..k -> K] : k \in 0..n }
+TablesUpTo(n) == TablesOver(Kinds, n)
+ForkCfgsOver(K, n) == { [impl |-> "fork", kinds |-> t, linkm |-> "none", maskm |-> "none", devnull |-> FALSE]
+                          : t \in TablesOver(K, n) }
+ForkCfgsOf(n) == ForkCfgsOver(Kinds, n)
 \* opts: set of <<linkm, maskm, devnull>>; an empty effective table would make the container
 \* builder fall back to its default mounts, which is not a case of this property
-ContCfgsOf(n, opts) == { c \in { [impl |-> "cont", kinds |-> t, linkm |-> o[1], maskm |-> o[2], devnull |-> o[3]]
-                                   : t \in TablesUpTo(n), o \in opts }
-                           : Len(Effective(c)) > 0 }
+ContCfgsOver(K, n, opts) ==
+  { c \in { [impl |-> "cont", kinds |-> t, linkm |-> o[1], maskm |-> o[2], devnull |-> o[3]]
+             : t \in TablesOver(K, n), o \in opts }
+      : Len(Effective(c)) > 0 }
+ContCfgsOf(n, opts) == ContCfgsOver(Kinds, n, opts)
 ContOptsAll  == {"def", "cus"} \X {"def", "cus"} \X BOOLEAN
 ContOptsTwo  == { <<"def", "def", FALSE>>, <<"cus", "cus", TRUE>> }
 ContOptsMain == { <<"def", "def", TRUE>>, <<"def", "def", FALSE>>, <<"cus", "cus", TRUE>>, <<"cus", "cus", FALSE>> }
-
-\* builder flag sets (pkg/mount/builder_linux.go)
-EntryFlags(e) ==
-  CASE e.api = "bind"  -> {"BIND", "NOSUID", "PRIVATE", "REC"} \cup (IF e.ro THEN {"RDONLY"} ELSE {})
-    [] e.api = "tmpfs" -> {"NOSUID", "NOATIME", "NODEV"}
-    [] e.api = "proc"  -> {"NOSUID", "NODEV", "NOEXEC"} \cup (IF e.ro THEN {"RDONLY"} ELSE {})
-EntryFsType(e) == IF e.api = "bind" THEN "" ELSE e.api
 
 \* ------------------------------------------------------------------ environment facts
 \* env = [proc   : set of [p, t]  entries of a procfs root that matter for masking (host fact),
@@ -123,7 +150,7 @@ Parent(p)   == SubSeq(p, 1, Len(p) - 1)
 Op(k, src, tgt, fst, fl, ok) == [k |-> k, src |-> src, tgt |-> tgt, fst |-> fst, fl |-> fl, ok |-> ok]
 
 \* mkdir for every proper prefix, mknod for the last one when the source is not a directory
-MakeNod(e) == e.api = "bind" /\ SrcType(e.src) \in {"f", "c"}
+MakeNod(e) == IsBind(e) /\ SrcType(e.src) \in {"f", "c"}
 TargetOps(e) ==
   [j \in 1..Len(e.tgt) |->
      IF j = Len(e.tgt) /\ MakeNod(e)
@@ -413,7 +440,7 @@ DeclHidden(E, i) == \E l \in (i + 1)..Len(E) : IsPrefix(E[l].tgt, E[i].tgt)
 DeclaredObject(cfg, x) ==
   LET E == Effective(cfg)
   IN \/ \E i \in DOMAIN E : IsPrefix(x.p, E[i].tgt)                             \* mount point or a directory leading to it
-     \/ \E i \in DOMAIN E : /\ E[i].api = "bind" /\ E[i].src \in DirSrc         \* content of a declared bind source
+     \/ \E i \in DOMAIN E : /\ IsBind(E[i]) /\ E[i].src \in DirSrc         \* content of a declared bind source
                             /\ IsPrefix(E[i].tgt, x.p)
                             /\ \E c \in SrcDirContent : c.p = Rel(x.p, E[i].tgt)
      \/ \E i \in DOMAIN Links(cfg) : IsPrefix(x.p, Links(cfg)[i].lp)            \* symlink or a directory leading to it
